@@ -125,7 +125,11 @@ class StyleExec(Exec):
             exp["alignment"] = [4, 0]
         for a in ("font_color", "bg_color"):
             if kw.get(a) is not None:
-                kw[a] = RGB(*kw[a])
+                if kw[a] and isinstance(kw[a][0], list):   # a list of colours: a gradient (documented for bg_color)
+                    kw[a] = [RGB(*x) for x in kw[a]]
+                    self.gradient = True
+                else:
+                    kw[a] = RGB(*kw[a])
         if "bg_image" in kw:
             name, hexdata = kw["bg_image"]
             kw["bg_image"] = BackgroundImage(bytes.fromhex(hexdata), name)
@@ -190,7 +194,12 @@ class StyleExec(Exec):
         self.nsaves += 1
         with warnings.catch_warnings():
             warnings.simplefilter("ignore")
-            self.doc.save(path)
+            try:
+                self.doc.save(path)
+            except AttributeError as e:
+                if getattr(self, "gradient", False) and "'list' object has no attribute" in str(e):
+                    self.fail(("gradient_bg_color_not_saved",), f"a style whose bg_color is a list of colours (gradient, as documented) makes save raise {type(e).__name__}: {e}")
+                raise
             self.check_view(self.table, "after_save")
             re = self.Document(path)
         self.check_view(re.sheets[0].tables[0], "reopened", reopened=True)
@@ -233,6 +242,8 @@ def style_specs(draw, fams, n):
         if draw(st.integers(0, 3)) == 0:
             data = bytes([137, 80, 78, 71, 13, 10, 26, 10]) + draw(st.binary(min_size=4, max_size=40))
             spec["bg_image"] = [f"img{n}_{draw(st.integers(0, 10**6))}.png", data.hex()]
+        elif draw(st.integers(0, 11)) == 0:
+            spec["bg_color"] = [draw(rgbs), draw(rgbs)]   # gradient
         else:
             spec["bg_color"] = draw(rgbs)
     if opt():
@@ -737,9 +748,71 @@ def adjacent_pairs(ctx):
             ex.close()
 
 
+READONLY_QUICK = ["test-bgcolour.numbers", "test-styles.numbers", "test-1.numbers", "test-formats.numbers", "test-extra-borders.numbers", "issue-51.numbers"]
+
+
+def check_readonly(ctx, case):
+    """Merely reading styles or borders never changes what is saved: the package saved after every Cell.style / Cell.border /
+    Document.styles was read holds the same objects, byte for byte, as the package saved without reading anything."""
+    import shutil
+    import tempfile
+    from pathlib import Path
+
+    from numbers_parser import Document
+    from vf import fixtures, validate
+
+    src = fixtures.DATA / case["fixture"]
+    tmp = Path(tempfile.mkdtemp(prefix="vf_c15r_"))
+    try:
+        def run(read):
+            with warnings.catch_warnings():
+                warnings.simplefilter("ignore")
+                d = Document(src)
+                if read:
+                    _ = d.styles
+                    for sh in d.sheets:
+                        for t in sh.tables:
+                            for row in t.rows():
+                                for cell in row:
+                                    if read in ("style", "both"):
+                                        try:
+                                            _ = cell.style
+                                        except (KeyError, IndexError):
+                                            pass   # unreadable style of the source document (unknown font): not this property
+                                    if read in ("border", "both"):
+                                        _ = cell.border
+                p = tmp / f"{read or 'plain'}.numbers"
+                d.save(p)
+            return validate.load(p)
+
+        base = ctx.guard(("C15", "readonly_save_raised", "plain"), case, run, None)
+        if base is None:
+            return
+        types = validate._registry()
+        for read in ("style", "border", "both"):
+            ctx.ev()
+            got = ctx.guard(("C15", "readonly_save_raised", read), case, run, read)
+            if got is None:
+                continue
+            a, b = base["raw"], got["raw"]
+            diff = sorted(i for i in set(a) | set(b) if a.get(i) != b.get(i))
+            if diff or base["members"] != got["members"]:
+                kinds = sorted({getattr(types.get((base["objects"].get(i) or got["objects"].get(i))[0]), "__name__", "?") for i in diff})
+                ctx.fail(("C15", "reading_changes_saved", read, *kinds[:3]), {**case, "read": read},
+                         f"{case['fixture']}: saving after reading every cell's {read} changes {len(diff)} saved object(s) ({kinds[:4]}), e.g. object {diff[:3]}")
+            ctx.nt((case["fixture"], read))
+        ctx.count("readonly_documents")
+    finally:
+        shutil.rmtree(tmp, ignore_errors=True)
+
+
 def tasks(tier, seed):
     t = [("matrix", {"attr": a}) for a in BASE_SPEC]
     t.append(("adjacent", {}))
+    from vf import fixtures as _fx
+
+    for name in (READONLY_QUICK if tier == "quick" else [n for n in _fx.SUPPORTED if n not in ("custom-format-stress.numbers", "test-6.numbers", "issue-67.numbers", "duration_112.numbers", "issue-35.numbers")]):
+        t.append(("readonly", {"fixture": name}))
     for k in range(8):
         t.append(("styles", {"n": 30 if tier == "quick" else 400, "steps": 14 if tier == "quick" else 20, "seed": derive_seed(seed, "c15s", k)}))
     for k in range(8):
@@ -754,6 +827,8 @@ def run_task(ctx, lane, **kw):
         attribute_matrix(ctx, kw["attr"])
     elif lane == "adjacent":
         adjacent_pairs(ctx)
+    elif lane == "readonly":
+        check_readonly(ctx, {"lane": "readonly", "fixture": kw["fixture"]})
     elif lane == "borders":
         run_machine(ctx, make_border_machine(ctx, kw["merges"]), kw["n"], kw["steps"], kw["seed"], exec_factory=BorderExec)
     else:
@@ -761,6 +836,8 @@ def run_task(ctx, lane, **kw):
 
 
 def check_case(ctx, case):
+    if case.get("lane") == "readonly":
+        return check_readonly(ctx, {k: v for k, v in case.items() if k in ("lane", "fixture")})
     ops = case["ops"]
     ex = BorderExec(ctx) if any(o["op"] in ("stroke", "merge") for o in ops) or (ops and ops[0]["op"] == "new" and not any(o["op"] in ("add_style", "apply", "edit", "read") for o in ops) and case.get("kind") == "border") else StyleExec(ctx)
     ex.replay(ops)
